@@ -231,6 +231,41 @@ def check(spec):
                                "binary" if K == 1 else "multi"] + (["cut-rows"] if n_cut else []), B)
 
 
+def check_clips(spec):
+    """cutmix over a batch the library (at the pinned commit) refuses - clips with a time axis (B, C, T, H, W): it stays refused, or, if a
+    version accepts it, the reported weight is the retained fraction of the sample in the output and the label carries the same weight"""
+    from kappadata.collators import KDMixCollator
+    B, C, T, H, W, K = spec["B"], 1, spec["T"], spec["H"], spec["W"], spec["K"]
+    rng = np.random.default_rng(spec["key"])
+    xs = [torch.from_numpy(rng.random(size=(C, T, H, W), dtype=np.float32)) * 0.25 + (k + 1) for k in range(B)]
+    cls = [int(c) for c in rng.integers(0, K, size=B)]
+    ys = [torch.nn.functional.one_hot(torch.tensor(c), num_classes=K).float() for c in cls]
+    samples = [((xs[k].clone(), ys[k].clone()), {}) for k in range(B)]
+    coll = KDMixCollator(cutmix_p=1.0, cutmix_alpha=spec["alpha"], shuffle_mode="roll", lamb_mode=spec["lamb_mode"], apply_mode="batch",
+                         dataset_mode="x class", return_ctx=True)
+    coll.set_rng(np.random.default_rng(spec["seed"]))
+    try:
+        (X, Y), ctx = coll(samples)
+    except Exception:
+        raise Refused("clip batches are refused")
+    lam = ctx["lambda"].flatten().tolist()
+    if len(lam) == 1:
+        lam = lam * B
+    for i in range(B):
+        p_ = (i - 1) % B
+        kept = float((X[i] == xs[i]).float().mean())
+        from_partner = float((X[i] == xs[p_]).float().mean()) if B > 1 else 0.0
+        if B > 1 and abs(kept + from_partner - 1.0) > 1e-6:
+            raise Violation("clips:output-is-not-sample-plus-partner", f"row {i}: {kept:.4f} of the elements are the sample's, {from_partner:.4f} the partner's")
+        if B > 1 and abs(kept - lam[i]) > 1.0 / (T * H * W) + 1e-6:
+            raise Violation("clips:reported-weight-is-not-the-retained-fraction", f"row {i}: reported weight {lam[i]:.4f}, retained fraction {kept:.4f} "
+                                                                                  f"(clip {T}x{H}x{W})")
+        ey = lam[i] * ys[i] + (1 - lam[i]) * ys[p_]
+        if float((Y[i] - ey).abs().max()) > 1e-5:
+            raise Violation("clips:label-weight-differs-from-reported-weight", f"row {i}")
+    return Case(True, ["accepted"], B)
+
+
 @st.composite
 def spec_s(draw, mae=False):
     sm = "flip" if mae else draw(st.sampled_from(["roll", "flip", "random"]))
@@ -261,6 +296,11 @@ def spec_s(draw, mae=False):
 FACETS = [
     Facet("mix-collator", check, strategy=lambda tier: spec_s(), budget={"quick": 6000, "thorough": 100000},
           shards={"quick": 8, "thorough": 16}, min_nontrivial={"quick": 1000, "thorough": 10000}),
+    Facet("clip-batches", check_clips,
+          strategy=lambda tier: st.fixed_dictionaries({"B": st.integers(2, 5), "T": st.integers(4, 8), "H": st.integers(4, 9), "W": st.integers(4, 9),
+                                                       "K": st.integers(2, 6), "key": st.integers(0, 999), "seed": st.integers(0, 2 ** 31),
+                                                       "alpha": st.sampled_from([0.5, 1.0, 4.0]), "lamb_mode": st.sampled_from(["batch", "sample"])}),
+          budget={"quick": 200, "thorough": 2000}, shards={"quick": 1, "thorough": 2}, min_nontrivial={"quick": 0, "thorough": 0}),
     Facet("mae-finetune-collator", check, strategy=lambda tier: spec_s(mae=True), budget={"quick": 400, "thorough": 5000},
           shards={"quick": 1, "thorough": 4}, min_nontrivial={"quick": 100, "thorough": 1000}),
 ]
